@@ -69,6 +69,21 @@ func main() {
 		fmt.Print(base.Generate(p.Cache.Mod, ir.ExcludedFile))
 		os.Exit(0)
 	}
+	baseSyms := base.Load()
+	inl.BaselineType = func(pkgPath, name string) bool {
+		if _, ok := baseSyms.Types[pkgPath][name]; ok {
+			return true
+		}
+		if _, ok := baseSyms.Fields[pkgPath][name]; ok {
+			return true
+		}
+		for _, pr := range []*ir.Program{p, p.Cache} {
+			if pr != nil && pr.Ren != nil && pr.Ren.TypeRev[pkgPath+"."+name] != "" {
+				return true
+			}
+		}
+		return false
+	}
 	var renameNotes []string
 	for _, pr := range []*ir.Program{p, p.Cache} {
 		if pr.Ren == nil {
@@ -174,7 +189,7 @@ func main() {
 					if os.Getenv("NVET_DEBUG_INL") != "" {
 						fmt.Fprintf(os.Stderr, "round %d: %d files rewritten, %d inlined, kept: %v\n", round, len(more), len(inl2), kept2)
 					}
-					if len(more) == 0 || len(inl2) == 0 {
+					if len(more) == 0 {
 						break
 					}
 					merged := map[string][]byte{}
